@@ -69,6 +69,7 @@ class TreeScenario(explore.Scenario):
         w.T = make_class()
         w.exported = set()
         w.again = set()      # paths whose object was replaced by another
+        w.inst = {}          # path -> the instance kept by the application
         w.serial = 100
         w.cw.sent()
         return w
@@ -79,6 +80,8 @@ class TreeScenario(explore.Scenario):
     def enabled(self, w):
         evs = []
         for i, p in enumerate(UNIVERSE):
+            if i not in self.params.get('paths', range(len(UNIVERSE))):
+                continue
             evs.append(('unexport', i) if p in w.exported
                        else ('export', i))
             if p in w.exported and p not in w.again and \
@@ -90,7 +93,14 @@ class TreeScenario(explore.Scenario):
     def _do(self, w, ev):
         p = UNIVERSE[ev[1]]
         if ev[0] == 'export':
-            w.cw.conn.exportObject(w.T(p))
+            if self.params.get('reuse'):
+                # the application keeps its object and exports the same
+                # instance again after having unexported it
+                if p not in w.inst:
+                    w.inst[p] = w.T(p)
+                w.cw.conn.exportObject(w.inst[p])
+            else:
+                w.cw.conn.exportObject(w.T(p))
             w.exported.add(p)
         elif ev[0] == 'reexport':
             w.cw.conn.exportObject(w.T(p))
@@ -267,7 +277,8 @@ class TreeScenario(explore.Scenario):
 
     def canon(self, w):
         if self.params.get('dedup', True):
-            return (tuple(sorted(w.exported)), tuple(sorted(w.again)))
+            return (tuple(sorted(w.exported)), tuple(sorted(w.again)),
+                    tuple(sorted(w.inst)))
         return None
 
     def nontrivial(self, hist):
@@ -293,7 +304,8 @@ def run(ctx):
         'strictly beneath, each with its interfaces and readable properties; '
         'UnknownObject when unexported); each event must emit exactly one '
         'InterfacesAdded / InterfacesRemoved for that path. A second pass '
-        'adds the event "export another object at an occupied path"'
+        'adds the event "export another object at an occupied path", a '
+        'third exports the same instance again after it was unexported'
         % (UNIVERSE, 3 if ctx.quick else 5))
     ctx.assumptions = ['unexport is only called for an exported path; an '
                        'export at an occupied path (a different object) '
@@ -307,6 +319,11 @@ def run(ctx):
                     {'dedup': True, 'reexport': (1, 2, 4) if ctx.quick
                      else tuple(range(7))}, max_depth=30,
                     label='with a second object exported at an occupied path')
+    explore.explore(ctx, TreeScenario,
+                    {'dedup': True, 'reuse': True,
+                     'paths': (1, 2, 3, 4) if ctx.quick else (0, 1, 2, 3, 4, 6)},
+                    max_depth=30,
+                    label='the same instances exported again after unexport')
     explore.explore(ctx, TreeScenario,
                     {'dedup': False, 'reexport': tuple(range(7))},
                     max_depth=3 if ctx.quick else 5,
